@@ -706,6 +706,108 @@ func genC06(ctx *Ctx) []Case {
 		add("store", true, xt.N(xt.LI(12), ops))
 	}
 
+	// --- counts around the decoders' pre-allocation cap (maxPrealloc = 1024): every count-prefixed
+	// reader that pre-allocates min(count, 1024) elements must still READ all of them
+	for _, n := range []int{1023, 1024, 1025, 3000} {
+		ctx.Count("prealloc_counts")
+		tiny := func(i int) []byte {
+			switch i % 3 {
+			case 0:
+				return nil
+			case 1:
+				return []byte{byte('a' + i%26)}
+			}
+			return []byte{byte(i), byte(i >> 8)}
+		}
+		// Table.ReadFrom: n block sums + n block index sums (RowsCount = n*255 and n*255-254)
+		for _, rows := range []uint32{uint32(n) * 255, uint32(n)*255 - 254} {
+			g := &c06GenTable{cols: [][]byte{[]byte("id")}, pk: []uint32{0}, rows: rows}
+			for i := 0; i < n; i++ {
+				g.blocks = append(g.blocks, c06Sum16(ctx))
+				g.indices = append(g.indices, c06Sum16(ctx))
+			}
+			add("prealloc", true, xt.N(xt.LI(6), g.tree(), xt.Bytes(c06Trailer(ctx))))
+		}
+		// Table meta: n columns (StrList) and n primary-key indices (UintList)
+		{
+			g := &c06GenTable{rows: 1, blocks: [][]byte{c06Sum16(ctx)}, indices: [][]byte{c06Sum16(ctx)}}
+			for i := 0; i < n; i++ {
+				g.cols = append(g.cols, tiny(i))
+				g.pk = append(g.pk, uint32(n-1-i))
+			}
+			add("prealloc", true, xt.N(xt.LI(6), g.tree(), xt.N()))
+		}
+		// ReadBlockFrom: n tiny rows; StrList: n tiny cells
+		{
+			rows := make([][][]byte, n)
+			cells := make([][]byte, n)
+			for i := range rows {
+				rows[i] = [][]byte{tiny(i)}
+				if i%7 == 0 {
+					rows[i] = append(rows[i], tiny(i+1))
+				}
+				cells[i] = tiny(i)
+			}
+			block("prealloc", rows, c06Trailer(ctx))
+			strlist("prealloc", cells, c06Trailer(ctx))
+			// one row of n cells inside a block
+			block("prealloc", [][][]byte{{[]byte("x")}, cells}, nil)
+		}
+		// UintList / FloatList
+		{
+			us := make([]uint32, n)
+			fs := make([]uint64, n)
+			for i := range us {
+				us[i] = uint32(i) * 2654435761
+				fs[i] = uint64(i)<<52 | uint64(i)
+			}
+			add("prealloc", true, xt.N(xt.LI(3), xt.U32s(us), xt.Bytes(c06Trailer(ctx))))
+			add("prealloc", true, xt.N(xt.LI(4), c06U64sT(fs), xt.Bytes(c06Trailer(ctx))))
+		}
+		// TableProfile: n columns; one column with n top values and n percentiles
+		{
+			cols := xt.N()
+			for i := 0; i < n; i++ {
+				c := c06RandCol(ctx, tiny(i), 0)
+				if i%50 != 0 { // keep most columns minimal
+					c = xt.N(xt.Bytes(tiny(i)), xt.L(uint64(i%2)), xt.N(), xt.N(), xt.N(), xt.N(), xt.N(), xt.N(), xt.L(0), xt.L(0), xt.L(0), xt.N())
+				}
+				cols.Add(c)
+			}
+			add("prealloc", true, xt.N(xt.LI(8), xt.N(xt.L(1), xt.L(uint64(n)), cols), xt.Bytes(c06Trailer(ctx))))
+			top, pct := xt.N(), xt.N()
+			for i := 0; i < n; i++ {
+				top.Add(xt.N(xt.Bytes(tiny(i)), xt.L(uint64(n-i))))
+				pct.Add(xt.L(uint64(i) << 40))
+			}
+			col := xt.N(xt.Bytes([]byte("c")), xt.L(0), xt.N(), xt.N(), xt.N(), xt.N(), xt.N(), xt.N(pct), xt.L(0), xt.L(2), xt.L(1), xt.N(top))
+			add("prealloc", true, xt.N(xt.LI(8), xt.N(xt.L(1), xt.L(9), xt.N(col)), xt.N()))
+		}
+		// through the store: SaveTable / GetTable, SaveBlock / GetBlock, table index, table profile
+		{
+			g := &c06GenTable{cols: [][]byte{[]byte("id")}, pk: []uint32{0}, rows: uint32(n) * 255}
+			rows := xt.N()
+			for i := 0; i < n; i++ {
+				g.blocks = append(g.blocks, c06Sum16(ctx))
+				g.indices = append(g.indices, c06Sum16(ctx))
+				rows.Add(c06CellsT([][]byte{tiny(i)}))
+			}
+			tb := c06Must(c06EncTable(c06TableFromTree(g.tree())))
+			blk := c06Must(c06EncBlock(c06Rows(rows)))
+			pcols := xt.N()
+			for i := 0; i < n; i++ {
+				pcols.Add(xt.N(xt.Bytes(tiny(i)), xt.L(0), xt.N(), xt.N(), xt.N(), xt.N(), xt.N(), xt.N(), xt.L(0), xt.L(0), xt.L(0), xt.N()))
+			}
+			prof := c06Must(c06EncProfile(c06ProfileFromTree(xt.N(xt.L(1), xt.L(uint64(n)), pcols))))
+			// (the owning table of the index / profile is a small one: the case must stay within the
+			// size the extracted model can take)
+			small := c06Must(c06EncTable(c06TableFromTree((&c06GenTable{cols: [][]byte{[]byte("id")}}).tree())))
+			add("prealloc", true, xt.N(xt.LI(12), xt.N(
+				xt.N(xt.LI(3), xt.Bytes(tb)), xt.N(xt.LI(1), xt.Bytes(blk)),
+				xt.N(xt.LI(5), xt.Bytes(small), xt.Bytes(blk)), xt.N(xt.LI(6), xt.Bytes(small), xt.Bytes(prof)))))
+		}
+	}
+
 	// --- decode-only: valid encodings and small mutations of them, every reader
 	dec := func(tag string, f int, b []byte) { add(tag, true, xt.N(xt.LI(13), xt.LI(f), xt.Bytes(b))) }
 	dec("decode", 1, []byte{0, 0, 0, 1, 0, 5})                   // stream ends after the last length prefix
